@@ -125,3 +125,11 @@ def untraced_call(fn, *a, **k):
         a = tuple(deep_realize(x) if isinstance(x, CrossHairValue) else x for x in a)
         k = {n: (deep_realize(x) if isinstance(x, CrossHairValue) else x) for n, x in k.items()}
         return fn(*a, **k)
+
+
+def detail(mod_globals, fmt, *args):
+    """Record a human-readable explanation of a failed postcondition -- in replay (real) mode only: formatting
+    containers under CrossHair calls repr(), which CrossHair may short-circuit into a symbolic string
+    ('proxy intolerance'), turning a refutable path into an UNKNOWN one."""
+    if REAL:
+        mod_globals["LAST_DETAIL"] = fmt % args
